@@ -56,6 +56,10 @@ def plan(tier, seed):
         # 5 object leaves in a chain on one species: four nested ancestors, co-optimal labellings three levels deep
         out += L.split_plan("unordered:U5chainx1x3", [(sh, None) for sh in spaces.chain_shapes(5)], u3, 150,
                             {"family": "unordered", "costs": [lab[0]]})
+        # four families on 3 object leaves, one species: every tuple of subsequences of abcd (syntenies with a hole that has
+        # genes on both sides: runs lost across a family the parent lacks)
+        out += L.split_plan("ordered:O3x1x4s", spaces.shape_pairs(3, 1, min_obj=3), spaces.subsequence_syntenies(4), 100,
+                            {"family": "ordered", "costs": [lab[0]]})
         return out
     for osh, ssh in spaces.shape_pairs(4, 4):
         out.append({"slice": "plain:P4x4", "family": "plain", "osh": osh, "ssh": ssh, "costs": PLAIN_MENU})
